@@ -10,7 +10,7 @@ from ..cxx_ir import CALL_KINDS, CTOR_KINDS, LOOP_KINDS
 from ..descriptors import arm_descriptors
 from ..cfg import cfg_of, const_eval
 from ..py_frontend import call_name, calls_under, walk, is_name, src, pmatch
-from .common import (short, inst, calls_in, callee_func, member_path, enclosing_map, ancestors,
+from .common import (ALL_KINDS, short, inst, calls_in, callee_func, member_path, enclosing_map, ancestors,
                      thrown_type, local_inits, strip_casts, kind_switches)
 
 # what the property statement says is compared, per kind
@@ -174,6 +174,42 @@ def p1(ctx):
                           ('compare %s, which the prefix relation does not depend on / which the '
                            'sibling matchers replace by %s' % (sorted(extra), sorted(need))) if extra else ''),
                       f.loc, {'atoms': sorted(got)})
+    # no pair of container nodes gets round the per-kind comparison: with both kinds fixed to
+    # container kinds, every normal return of the merge walker lies behind its kind switch
+    from ..descriptors import kind_edge_filter
+    f, _d = matchers['BroadcastToCommonSuffixImpl']
+    cfg = cfg_of(f)
+    sws = kind_switches(f)
+    ctx.require(sws, 'BroadcastToCommonSuffixImpl: no kind switch')
+    sw_cond = None
+    for k in sws[0].kids[:-1]:
+        if k is not None:
+            sw_cond = k
+    subj = member_path(strip_casts(sw_cond))
+    swn = cfg.cnode_of(sw_cond)
+    # the other operand's node: the Node reference whose kind is compared with Leaf before the switch
+    others = sorted({member_path(strip_casts(x.kids[0]))[:-len('.kind')] for cn in cfg.nodes
+                     if cn.kind == 'cond' and cn.ast is not None and cn.ast.kind == 'BinaryOperator'
+                     for x in [cn.ast] if (member_path(strip_casts(x.kids[0])) or '').endswith('.kind')
+                     and member_path(strip_casts(x.kids[0])) != subj})
+    ctx.require(subj is not None and swn is not None and len(others) == 1,
+                'BroadcastToCommonSuffixImpl: switch subject / other node not recognised (%s, %s)' % (subj, others))
+    containers = [k for k in ALL_KINDS if k not in ('Leaf', 'None')]
+    short_cuts = []
+    for k1 in containers:
+        f1 = kind_edge_filter(cfg, k1, subj)
+        f2 = kind_edge_filter(cfg, k1, others[0] + '.kind')
+        reach = cfg.reachable_from([cfg.entry.idx], lambda v, w, lab: f1(v, w, lab) or f2(v, w, lab), {swn})
+        rets = [x for x in reach if cfg.nodes[x].kind == 'return']
+        if rets:
+            short_cuts.append((k1, cfg.nodes[rets[0]]))
+    ctx.check('BroadcastToCommonSuffixImpl/no-shortcut-round-the-kind-switch', not short_cuts,
+              'two container nodes of the same kind always reach the per-kind comparison of the merge walker',
+              'two %s nodes can return at %s before the per-kind comparison (registration, metadata, '
+              'arity, type): conflicting trees are merged silently and the result depends on the '
+              'argument order' % (short_cuts[0][0] if short_cuts else '',
+                                  short_cuts[0][1].ast.loc if short_cuts and short_cuts[0][1].ast is not None else '?'),
+              short_cuts[0][1].ast.loc if short_cuts and short_cuts[0][1].ast is not None else f.loc)
     # Python diagnostic walker
     mod = pkg.mod('optree.ops')
     pf = _py_prefix_facts(mod)
